@@ -951,7 +951,40 @@ func ruleINV6(c *Ctx) {
 		c.Check(n >= 2, fnName(fn)+" / containment tests use the name parameter as needle", p.Pos(fn.Pos()), fmt.Sprintf("%d containment tests with the parameter as needle", n), "Reset(name) does not test containment of its parameter in both node kinds")
 		// forwarding branch: ResetVariable called with the range value whose GrlText equals the name
 		fw := findCalls(fn, matchStatic(m.resetVar))
-		c.Check(len(fw) >= 1, fnName(fn)+" / forwards a matching variable to ResetVariable", p.Pos(fn.Pos()), "forwarding call present", "Reset(name) no longer forwards a matching variable to ResetVariable")
+		okFw := len(fw) >= 1
+		whyFw := "Reset(name) no longer forwards a matching variable to ResetVariable"
+		for _, ci := range fw {
+			v := ci.Common().Args[1]
+			// dominated by the true edge of `v.GrlText == name` (exact match: a looser test would stop at the first
+			// partially matching variable and skip the containment pass for everything else)
+			dom := edgesDominate(fn, ci.(ssa.Instruction), func(b *ssa.BasicBlock, si int) bool {
+				iff, isIf := b.Instrs[len(b.Instrs)-1].(*ssa.If)
+				if !isIf {
+					return false
+				}
+				bo, isBo := iff.Cond.(*ssa.BinOp)
+				if !isBo || (bo.Op != token.EQL && bo.Op != token.NEQ) {
+					return false
+				}
+				isText := func(x ssa.Value) bool {
+					f, base := fieldLoad(x)
+					return f != nil && f.Name() == "GrlText" && base == v
+				}
+				isName := func(x ssa.Value) bool { return len(fn.Params) > 1 && x == ssa.Value(fn.Params[1]) }
+				if !((isText(bo.X) && isName(bo.Y)) || (isText(bo.Y) && isName(bo.X))) {
+					return false
+				}
+				if bo.Op == token.EQL {
+					return si == 0
+				}
+				return si == 1
+			})
+			if !dom {
+				okFw = false
+				whyFw = "the early forward to ResetVariable is not guarded by an exact match of the variable's text with the name: Reset(name) can return after resetting a merely similar variable, leaving the named one remembered"
+			}
+		}
+		c.Check(okFw, fnName(fn)+" / forwards a matching variable to ResetVariable", p.Pos(fn.Pos()), "forwarding call under variable.GrlText == name", whyFw)
 	}
 }
 
